@@ -25,6 +25,8 @@
 //     or send outside a select, ranging over a channel, a select without default (one wait for the whole statement).  The
 //     contracts let a wait "acquire" the registry locks (it may depend on another goroutine that needs them), so a wait must not
 //     happen while Broker.lock or a graph's threshold lock is held.
+//   * g.roots.Store / Delete (any method of graphMap on a graph's roots other than Range / Nodes) -> additionally Wr of the pseudo
+//     field "eventlogger.graph.roots!": the registry's map mutations, guarded by Broker.lock in Contracts.v.
 //   * reading the wall clock (time.Now, time.Since, time.Until) -> Rd of the pseudo field "<receiver type>.clock!" (package
 //     functions: "<pkg>.clock!"): a type whose contract guards it (FileSink) must read the clock under its lock.
 //   * go statements -> Go; immediately invoked literals -> Block; literals passed as arguments -> Loop (Block ..) after
@@ -487,7 +489,7 @@ func (t *tr) reflectiveRead(arg ast.Expr, out *[]string) {
 	}
 }
 
-func (t *tr) rootsOp(c *ast.CallExpr, recv ast.Expr, method string) {
+func (t *tr) rootsOp(c *ast.CallExpr, recv ast.Expr, method string) (mutation bool) {
 	// g.roots.<Store|Delete|Range|Nodes>: ordered record for the overwrite-atomicity obligation
 	if se, ok := ast.Unparen(recv).(*ast.SelectorExpr); ok {
 		if fl, ok := t.fieldOf(se, nil); ok && fl == "eventlogger.graph.roots" {
@@ -497,8 +499,10 @@ func (t *tr) rootsOp(c *ast.CallExpr, recv ast.Expr, method string) {
 			default:
 				t.rops = append(t.rops, "Other")
 			}
+			return method != "Range" && method != "Nodes"
 		}
 	}
+	return false
 }
 
 func (t *tr) call(c *ast.CallExpr, out *[]string) {
@@ -561,8 +565,10 @@ func (t *tr) call(c *ast.CallExpr, out *[]string) {
 						calleeName = owner + "." + f.Sel.Name
 						t.called(calleeName)
 						*out = append(*out, "(PCall \""+calleeName+"\")")
-						if owner == "eventlogger.graphMap" {
-							t.rootsOp(c, f.X, f.Sel.Name)
+						if owner == "eventlogger.graphMap" && t.rootsOp(c, f.X, f.Sel.Name) {
+							// a mutation of a graph's pipeline map: a write of the pseudo field graph.roots! (the map itself is a
+							// sync.Map and race free; the registry STATE it is part of changes only under Broker.lock)
+							t.wr(c, "eventlogger.graph.roots!", out)
 						}
 					} else {
 						external = true
